@@ -30,3 +30,33 @@ func GenBytes(r *rng.R, maxLen int) []byte {
 	}
 	return out
 }
+
+// MutateBytes applies 1–3 small edits (delete, duplicate, swap, substitute, insert) to a text.
+func MutateBytes(r *rng.R, in []byte) []byte {
+	out := append([]byte(nil), in...)
+	for k := 1 + r.Intn(3); k > 0; k-- {
+		if len(out) == 0 {
+			out = append(out, rng.Pick(r, lexSig)...)
+			continue
+		}
+		i := r.Intn(len(out))
+		j := i + 1 + r.Intn(4)
+		if j > len(out) {
+			j = len(out)
+		}
+		switch r.Intn(5) {
+		case 0:
+			out = append(out[:i:i], out[j:]...)
+		case 1:
+			out = append(out[:j:j], append(append([]byte(nil), out[i:j]...), out[j:]...)...)
+		case 2:
+			k2 := r.Intn(len(out))
+			out[i], out[k2] = out[k2], out[i]
+		case 3:
+			out = append(out[:i:i], append([]byte(rng.Pick(r, lexSig)), out[j:]...)...)
+		default:
+			out = append(out[:i:i], append([]byte(rng.Pick(r, lexSig)), out[i:]...)...)
+		}
+	}
+	return out
+}
